@@ -133,7 +133,7 @@ class TlcResult:
             tid = int(m.group(1))
             # Trace specs may branch where the log leaves a choice open: a trace is
             # accepted when some branch accepts (ACCEPT > EXCLUDED > REJECT).
-            rank = {"ACCEPT": 3, "EXCLUDED": 2, "REJECT": 1}
+            rank = {"ACCEPT": 3, "EXCLUDED": 2, "REJECT": 1, "BADTREE": 0}
             old = v.get(tid)
             if old and rank.get(old[0], 0) >= rank.get(m.group(2), 0):
                 continue
